@@ -41,21 +41,21 @@ theorem guards_sites_views : Generated.guardSitesViews =
   decide +kernel
 
 theorem guards_context_views : Generated.guardContextViews =
-    [("guard_events_no_ancestors", ["for (c, p) in self.predecessors().items()"]),
-     ("guard_events_one_ancestor", ["for (c, p) in self.predecessors().items()", "else of if len(p) == 0"]),
-     ("guard_events_split", ["for (c, p) in self.predecessors().items()", "else of if len(p) == 0", "if len(p) == 1"]),
-     ("guard_events_misaligned", ["for (c, p) in self.predecessors().items()", "else of if len(p) == 0",
-        "else of if len(p) == 1", "for deme_from in p"])] := by decide +kernel
+    [("guard_events_no_ancestors", ["for (v2, v3) in self.predecessors().items()"]),
+     ("guard_events_one_ancestor", ["for (v2, v3) in self.predecessors().items()", "else of if len(v3) == 0"]),
+     ("guard_events_split", ["for (v2, v3) in self.predecessors().items()", "else of if len(v3) == 0", "if len(v3) == 1"]),
+     ("guard_events_misaligned", ["for (v2, v3) in self.predecessors().items()", "else of if len(v3) == 0",
+        "else of if len(v3) == 1", "for v5 in v3"])] := by decide +kernel
 
 /-- `time_aligned = True` immediately before `for deme_from in p`, whose only statement is `if` #3 (the
 misalignment test) with the only statement `time_aligned = False`; read once, by `if` #4 right after the loop:
 the flag is "no `deme_from` in `p` is misaligned" (`ends.all (fun e => !gMisaligned ..)` in `discreteEventsWith`) -/
 theorem guards_events_aligned_flag :
-    Generated.eventsAlignedFlag = ("for deme_from in p", 3, 4, "time_aligned is True") := by decide +kernel
+    Generated.eventsAlignedFlag = ("for v5 in v3", 3, 4, "v4 is True") := by decide +kernel
 
 theorem guards_events_loops : Generated.eventsLoops =
-    ["for (c, p) in self.predecessors().items()", "for deme_from in p",
-     "for (deme_from, demes_to) in splits_to_add.items()"] := by decide +kernel
+    ["for (v2, v3) in self.predecessors().items()", "for v5 in v3",
+     "for (v5, v6) in v1.items()"] := by decide +kernel
 
 theorem guards_events_initial : Generated.eventsInitial =
     [("pulses", "self.pulses"), ("splits", "[]"), ("branches", "[]"), ("mergers", "[]"), ("admixtures", "[]")] := by
@@ -63,54 +63,54 @@ theorem guards_events_initial : Generated.eventsInitial =
 
 /-- what is appended where (each row is one line of `discreteEventsWith`) -/
 theorem guards_events_effects : Generated.eventsEffects =
-    [("splits_to_add.setdefault(p[0], set())", ["for (c, p) in self.predecessors().items()", "else of if len(p) == 0",
-        "if len(p) == 1", "if self[c].start_time == self[p[0]].end_time"]),
-     ("splits_to_add[p[0]].add(c)", ["for (c, p) in self.predecessors().items()", "else of if len(p) == 0",
-        "if len(p) == 1", "if self[c].start_time == self[p[0]].end_time"]),
-     ("demo_events['branches'].append(Branch(parent=p[0], child=c, time=self[c].start_time))",
-        ["for (c, p) in self.predecessors().items()", "else of if len(p) == 0", "if len(p) == 1",
-         "else of if self[c].start_time == self[p[0]].end_time"]),
-     ("demo_events['mergers'].append(Merge(parents=self[c].ancestors, proportions=self[c].proportions, child=c, time=self[c].start_time))",
-        ["for (c, p) in self.predecessors().items()", "else of if len(p) == 0", "else of if len(p) == 1",
-         "if time_aligned is True"]),
-     ("demo_events['admixtures'].append(Admix(parents=self[c].ancestors, proportions=self[c].proportions, child=c, time=self[c].start_time))",
-        ["for (c, p) in self.predecessors().items()", "else of if len(p) == 0", "else of if len(p) == 1",
-         "else of if time_aligned is True"]),
-     ("demo_events['splits'].append(Split(parent=deme_from, children=list(demes_to), time=self[deme_from].end_time))",
-        ["for (deme_from, demes_to) in splits_to_add.items()"])] := by decide +kernel
+    [("v1.setdefault(v3[0], set())", ["for (v2, v3) in self.predecessors().items()", "else of if len(v3) == 0",
+        "if len(v3) == 1", "if self[v2].start_time == self[v3[0]].end_time"]),
+     ("v1[v3[0]].add(v2)", ["for (v2, v3) in self.predecessors().items()", "else of if len(v3) == 0",
+        "if len(v3) == 1", "if self[v2].start_time == self[v3[0]].end_time"]),
+     ("v0['branches'].append(Branch(parent=v3[0], child=v2, time=self[v2].start_time))",
+        ["for (v2, v3) in self.predecessors().items()", "else of if len(v3) == 0", "if len(v3) == 1",
+         "else of if self[v2].start_time == self[v3[0]].end_time"]),
+     ("v0['mergers'].append(Merge(parents=self[v2].ancestors, proportions=self[v2].proportions, child=v2, time=self[v2].start_time))",
+        ["for (v2, v3) in self.predecessors().items()", "else of if len(v3) == 0", "else of if len(v3) == 1",
+         "if v4 is True"]),
+     ("v0['admixtures'].append(Admix(parents=self[v2].ancestors, proportions=self[v2].proportions, child=v2, time=self[v2].start_time))",
+        ["for (v2, v3) in self.predecessors().items()", "else of if len(v3) == 0", "else of if len(v3) == 1",
+         "else of if v4 is True"]),
+     ("v0['splits'].append(Split(parent=v5, children=list(v6), time=self[v5].end_time))",
+        ["for (v5, v6) in v1.items()"])] := by decide +kernel
 
 /-- `len(p) == 0` -/
 theorem guard_events_no_ancestors_meaning (n : Nat) :
-    Generated.guard_events_no_ancestors (len_p := n) = decide (n = 0) := by
+    Generated.guard_events_no_ancestors (len_v3 := n) = decide (n = 0) := by
   unfold Generated.guard_events_no_ancestors
   grind
 
 /-- `len(p) == 1` -/
 theorem guard_events_one_ancestor_meaning (n : Nat) :
-    Generated.guard_events_one_ancestor (len_p := n) = decide (n = 1) := by
+    Generated.guard_events_one_ancestor (len_v3 := n) = decide (n = 1) := by
   unfold Generated.guard_events_one_ancestor
   grind
 
 /-- `self[c].start_time == self[p[0]].end_time` -/
 theorem guard_events_split_meaning (childStart : ETime) (parentEnd : Q) :
-    Generated.guard_events_split (self_c_start_time := Num.ofETime childStart) (self_p_0_end_time := Num.fin parentEnd)
+    Generated.guard_events_split (self_v2_start_time := Num.ofETime childStart) (self_v3_0_end_time := Num.fin parentEnd)
       = decide (childStart = ETime.fin parentEnd) := by
   unfold Generated.guard_events_split
   exact eqIEEE_ofETime childStart (.fin parentEnd)
 
 /-- `self[c].start_time != self[deme_from].end_time` -/
 theorem guard_events_misaligned_meaning (childStart parentEnd : ETime) :
-    Generated.guard_events_misaligned (self_c_start_time := Num.ofETime childStart)
-      (self_deme_from_end_time := Num.ofETime parentEnd) = !decide (childStart = parentEnd) := by
+    Generated.guard_events_misaligned (self_v2_start_time := Num.ofETime childStart)
+      (self_v5_end_time := Num.ofETime parentEnd) = !decide (childStart = parentEnd) := by
   unfold Generated.guard_events_misaligned
   rw [eqIEEE_ofETime]
 
 /-- `discreteEvents` makes exactly the source's four tests, in the source's nesting -/
 theorem guards_tie_discrete_events : discreteEvents = discreteEventsWith
-    (fun n => Generated.guard_events_no_ancestors (len_p := n))
-    (fun n => Generated.guard_events_one_ancestor (len_p := n))
-    (fun s e => Generated.guard_events_split (self_c_start_time := s) (self_p_0_end_time := e))
-    (fun s e => Generated.guard_events_misaligned (self_c_start_time := s) (self_deme_from_end_time := e)) := by
+    (fun n => Generated.guard_events_no_ancestors (len_v3 := n))
+    (fun n => Generated.guard_events_one_ancestor (len_v3 := n))
+    (fun s e => Generated.guard_events_split (self_v2_start_time := s) (self_v3_0_end_time := e))
+    (fun s e => Generated.guard_events_misaligned (self_v2_start_time := s) (self_v5_end_time := e)) := by
   funext g
   unfold discreteEvents discreteEventsWith
   dsimp only
